@@ -463,6 +463,27 @@ int main(int argc, char** argv) {
                  judge(maybe_neg(respell(base, e10, r), r), r);
                }});
 
+  // an exact tie, then zeros up to and beyond the 800-digit capacity of the decimal fallback, then a tail whose non-zero
+  // digit lies before / at / after the 800th significant digit and whose last digit is zero or not: "was anything
+  // non-zero dropped" has to be sticky over all dropped digits
+  S.push_back({"tie_then_tail_around_digit_800", 6000, 400000, [](uint64_t, vf::Rng& r) {
+                 uint64_t b = ((uint64_t)(1023 + (long)r.range(0, 100) - 30) << 52) | (r.next() & 0x000fffffffffffffULL);
+                 if (r.below(4) == 0) b = 0x4340000000000000ULL + r.below(4);  // 2^53 + ...: integer ties
+                 long double lo = from_bits(b), hi = from_bits(b + 1);
+                 long double mid = lo + (hi - lo) / 2;
+                 std::string dig;
+                 long e10;
+                 exact_decimal(mid, dig, e10);
+                 if (dig.size() > 700) return;
+                 static const char* tails[] = {"1", "10", "30", "100", "0001", "00010", "5000", "00", "9", "90", "000000000010", "00000000000000000000000000000070"};
+                 std::string tail = tails[r.below(12)];
+                 long target = (long)r.range(770, 840) - (long)dig.size() - (long)r.below(tail.size() + 1);
+                 std::string zeros(target > 0 ? (size_t)target : 0, '0');
+                 std::string base = dig + zeros + tail;
+                 e10 -= (long)(zeros.size() + tail.size());
+                 judge(maybe_neg(respell(base, e10, r), r), r);
+               }});
+
   // decimals just below / at / above every power of two (rounded to 15..25 significant digits)
   S.push_back({"near_power_of_two", 2098 * 3, 2098 * 60, [](uint64_t i, vf::Rng& r) {
                  int k = (int)(i % 2098) - 1074;  // 2^k, k in [-1074, 1023]
